@@ -107,7 +107,7 @@ func suiteHistory(c *ctx) {
 	}
 	os.RemoveAll(root)
 	defer os.RemoveAll(root)
-	nMem, nDisk, maxLen := 250, 2, 8
+	nMem, nDisk, maxLen := 250, 3, 8
 	if c.tier == "thorough" {
 		nMem, nDisk, maxLen = 2500, 8, 40
 	}
@@ -152,7 +152,7 @@ func suiteHistory(c *ctx) {
 		runHistory(c, fmt.Sprintf("m%d", i), cfg, mkRevs(dialect, k), false, root)
 	}
 	for i := 0; i < nDisk; i++ {
-		cfg := runCfg{dialect: "mysql", lower: i%2 == 0}
+		cfg := runCfg{dialect: "mysql", lower: i%2 == 0, ignore: i%3 == 2} // every third one under the ignore-field-order option
 		runHistory(c, fmt.Sprintf("d%d", i), cfg, mkRevs("mysql", 3), true, root)
 		c.count("on_disk_histories")
 	}
